@@ -211,7 +211,7 @@ func main() {
 		chainmc.ReplayFile(run, m)
 		return
 	}
-	run.SetBudget(8*60e9, 20*60e9)
+	run.SetBudget(10*60e9, 20*60e9)
 	depth := 5
 	if run.Thorough() {
 		depth = 6
